@@ -12,4 +12,5 @@ unsigned long vs_stamp(void);
 int vs_acq_count(int t);
 unsigned long vs_acq_stamp(int t, int k);
 void vs_stats(unsigned long* out5);
+long long vs_now(void);            /* virtual time in ns (what clock_gettime / gettimeofday of the code under test see) */
 #endif
